@@ -17,8 +17,11 @@ package crlrepository
 //@ type Repository
 //@   guarded_by crlRepositoryLock: crlRepository
 //@   immutable: Factory, crlRepositoryLock, crlConfig, logger, crlLoaderFactory, crlReader
-//@   invariant[C13] map_ok: self.crlRepository != nil && (forall id string :: has(self.crlRepository, id) && self.crlRepository[id] != nil ==> entryShell(self.crlRepository[id]))
+//@   invariant[C13] map_ok: self.crlRepository != nil && repoMapOK(self)
+//@   invariant[C13] entry_locks_distinct: repoLocksDistinct(self)
 
+//@ spec func repoMapOK(R ref) bool = forall id string :: has(R.crlRepository, id) ==> entryShell(R.crlRepository[id])
+//@ spec func repoLocksDistinct(R ref) bool = forall id string :: has(R.crlRepository, id) && R.crlRepository[id] != nil ==> R.crlRepository[id].entryLock != R.crlRepositoryLock
 //@ spec func entryShell(e ref) bool = e != nil && e.entryLock != nil && loaderOK(e.CRLLoader)
 //@ spec func repoOK(R ref) bool = R != nil && R.crlRepositoryLock != nil && R.crlConfig != nil && R.crlConfig.CDPConfig != nil && R.logger != nil && R.crlLoaderFactory != nil && R.crlReader != nil && R.Factory != nil && factoryOK(R.Factory)
 //@ spec func resultOK(r ref) bool = r != nil && r.Issuer != nil && r.Signature != nil && r.HashAndVerifyStrategy != nil && r.HashAndVerifyStrategy.VerifyStrategy != nil
@@ -83,9 +86,11 @@ package crlrepository
 //@   props C12 C13 C16
 //@   requires repoOK(R) && loaderOK(loader) && wheld(R.crlRepositoryLock) && R.crlRepository != nil && chains != nil && chainsOK(chains)
 //@   assigns M.map[string]*crlrepository.Entry, X.fs, X.ldbhas
-//@   ensures err == nil ==> entryShell(ret) && ret.CRLStore != nil && storeOK(ret.CRLStore) && !isTempStore(ret.CRLStore) && (!ret.Loaded ==> ret.Chains == chains)
+//@   ensures err == nil ==> entryShell(ret) && ret.entryLock != R.crlRepositoryLock && ret.CRLStore != nil && storeOK(ret.CRLStore) && !isTempStore(ret.CRLStore) && (!ret.Loaded ==> ret.Chains == chains)
 //@   ensures err == nil ==> (forall q string :: has(R.crlRepository, q) == (old(has(R.crlRepository, q)) || q == identifier)) && R.crlRepository[identifier] == ret && (forall q string :: q != identifier ==> R.crlRepository[q] == old(R.crlRepository[q]))
 //@   ensures err != nil ==> (forall q string :: has(R.crlRepository, q) == old(has(R.crlRepository, q))) && (forall q string :: R.crlRepository[q] == old(R.crlRepository[q]))
+//@   ensures map_stays_ok: old(repoMapOK(R)) ==> repoMapOK(R)
+//@   ensures locks_stay_distinct: old(repoLocksDistinct(R)) ==> repoLocksDistinct(R)
 //@   ensures[C12,C16] loaded_means_meta_on_disk: err == nil && ret.Loaded ==> storeHas(ret.CRLStore, sum64(crlstore.MetaInfoKey))
 
 //@ func Repository.createTempFile
@@ -234,16 +239,17 @@ package crlrepository
 //@   requires repoOK(R) && norwlocks()
 //@   assigns L.held, crlrepository.Entry.CRLStore, crlrepository.Entry.Loaded, crlrepository.Entry.LastUpdateSignatureVerifyFailed, crlrepository.Entry.LastUpdateSignature, crlrepository.Entry.Chains, M.map[string]*crlrepository.Entry, X.fs, X.retry
 //@   ensures norwlocks()
-//@   loop 1 invariant repoOK(R) && wheld(R.crlRepositoryLock) && R.crlRepository != nil && (forall id string :: has(R.crlRepository, id) && R.crlRepository[id] != nil ==> entryShell(R.crlRepository[id]))
+//@   loop 1 invariant repoOK(R) && wheld(R.crlRepositoryLock) && R.crlRepository != nil && (forall id string :: has(R.crlRepository, id) ==> entryShell(R.crlRepository[id]) && R.crlRepository[id].entryLock != R.crlRepositoryLock)
 //@   loop 1 invariant forall l int :: l != R.crlRepositoryLock && isrwlock(l) ==> unheld(l)
 //@ func Repository.closeRepositoryEntry
 //@   props C09 C13 C20
-//@   requires repoOK(R) && wheld(R.crlRepositoryLock) && R.crlRepository != nil && entryShell(entry) && unheld(entry.entryLock)
+//@   requires repoOK(R) && wheld(R.crlRepositoryLock) && R.crlRepository != nil
+//@   requires entry_present: entryShell(entry)
+//@   requires entry_lock_not_held: unheld(entry.entryLock)
 //@   assigns L.held, crlrepository.Entry.CRLStore, crlrepository.Entry.Loaded, crlrepository.Entry.LastUpdateSignatureVerifyFailed, crlrepository.Entry.LastUpdateSignature, crlrepository.Entry.Chains, M.map[string]*crlrepository.Entry, X.fs, X.retry
 //@   ensures sameLocks()
-//@   ensures forall q string :: has(R.crlRepository, q) == (old(has(R.crlRepository, q)) || q == id)
+//@   ensures[C13,C20] closed_entry_is_removed: forall q string :: has(R.crlRepository, q) == (old(has(R.crlRepository, q)) && q != id)
 //@   ensures forall q string :: q != id ==> R.crlRepository[q] == old(R.crlRepository[q])
-//@   ensures R.crlRepository[id] == nil
 //@ func NewCRLRepository
 //@   props C13 C20
 //@   requires logger != nil && crlConfig != nil && crlConfig.CDPConfig != nil
